@@ -196,12 +196,71 @@ PROPS['C18'] = {
                     'values are non-NULL'],
 }
 
-for _p in ('C02',):
-    PROPS[_p] = {
+REAL_IPC = ['lib/ipcc.c', 'lib/ipcs.c', 'lib/ipc_setup.c', 'lib/ipc_shm.c', 'lib/ipc_socket.c', 'lib/ringbuffer.c', 'lib/ringbuffer_helper.c',
+            'lib/unix.c', 'lib/loop*.c (the server runs the real qb_loop)', 'kernel AF_UNIX stream/datagram sockets, epoll, tmpfs files, mmap (real, non-blocking)']
+STUB_IPC = ['process identity, liveness and death (sim pids; a killed process has its descriptors closed by the shim, nothing else)',
+            'peer credentials in SCM_CREDENTIALS (rewritten by the shim to the simulated uid/gid/pid of the tracked peer)',
+            'file ownership (chown ledger)', 'clock, sleeping, blocking in poll/epoll_wait/sem_wait', 'thread/process scheduling', 'random()']
+IPC_RULE = ('one evaluation = one seeded (scripts, schedule, faults) triple in one OS process: a server sim-process (real qb_loop + qb_ipcs '
+            'service; its application layer is driven by the plan), 1..3 client sim-processes running scripts against qb_ipcc, %s; tasks '
+            'interleave at libc calls under the seeded scheduler; non-trivial = %s; distinct = distinct fingerprint of the (yield site, '
+            'task switched to) sequence')
+
+def _ipc(extra_parties, nontrivial, **kw):
+    d = {
         'parts': [{'harness': 'ipc_sim', 'chunk': 40}], 'quick_s': 45, 'thorough_s': 900,
         'level_quick': 'exploration', 'level_thorough': 'exploration',
-        'rule': 'tbd', 'level_text': 'tbd', 'level_note': 'tbd', 'technique': 'tbd', 'design_ref': 'DESIGN.md 4', 'real': [], 'stub': [], 'assumptions': [],
+        'rule': IPC_RULE % (extra_parties, nontrivial),
+        'real': REAL_IPC, 'stub': STUB_IPC,
     }
+    d.update(kw)
+    return d
+
+PROPS['C02'] = _ipc('no hostile party', 'at least two messages were delivered and verified byte for byte',
+    level_text='seeded search over message lengths, bursts, flow-control toggles and client/server interleavings on both transports; per-connection '
+               'FIFO reference model for requests, responses and events (exactly once, in order, intact), refusal-has-no-effect, EMSGSIZE boundary, '
+               'readable-while-events-queued invariant, bounded-liveness tail with faults off',
+    level_note='interleavings at libc-call granularity (ring internals additionally in C01); sends whose sender cannot know whether they were queued '
+               '(sendv_recv failing in its receive half, disconnect errors) are accepted either way; liveness judged only after faults stop, within 400 receive rounds',
+    technique='deterministic simulation with fault injection (EINTR, short stream I/O, tiny SO_SNDBUF making the notification socket really fill), FIFO reference models, ddmin replay',
+    design_ref='DESIGN.md 4/C02',
+    assumptions=['one thread per process', 'abstract-namespace sockets (no /etc/libqb/force-filesystem-sockets)'])
+PROPS['C03'] = _ipc('no hostile party', 'at least one connection was announced and the baton changed hands more than four times',
+    level_text='seeded search over crash points: the victim (a client, or the server) is killed immediately before a seeded libc call of its own '
+               '(kill points recorded per task, so they survive shrinking), with short handshake writes, on both transports; oracles: destroyed exactly '
+               'once / closed iff created, witness clients still served, server descriptors and /dev/shm back to baseline, client calls bounded in '
+               'virtual time after server death',
+    level_note='crash points are libc-call boundaries of the dying process (not mid-ring-operation instants); latency is the time the call itself spent '
+               'waiting, scheduling latency of the caller excluded; plain qb_ipcc_recv(-1) is not required to return (the property promises that only for '
+               'sendv_recv and event_recv); thorough tier samples more kill points, it does not yet enumerate all of them',
+    technique='deterministic simulation with crash injection at every libc-call boundary of the victim, virtual time, descriptor/shm ledgers, ddmin replay',
+    design_ref='DESIGN.md 4/C03',
+    assumptions=['a dead process only loses its descriptors; shared memory it wrote stays as it was'])
+PROPS['C04'] = _ipc('no hostile party', 'at least one connection was announced and the baton changed hands more than four times',
+    level_text='seeded search over histories of connects, disconnects/deaths, server-initiated disconnects from callbacks, jobs and timers, extra '
+               'references dropped later, closed-callback retries, rate-limit changes, list walks and service destruction; callback-order automaton per '
+               'connection generation plus AddressSanitizer on all libqb code',
+    level_note='the application layer obeys the API (balanced references, no call on a destroyed connection, no disconnect of a connection it already saw closed); '
+               'a connection disconnected from inside its own connection_created callback is not required to see connection_closed',
+    technique='deterministic simulation (seeded histories and schedules, EINTR/short I/O faults), callback-order reference automaton, ASan, ddmin replay',
+    design_ref='DESIGN.md 4/C04',
+    assumptions=['one thread per process'])
+PROPS['C05'] = _ipc('no hostile party', 'at least one connection was announced and the baton changed hands more than four times',
+    level_text='seeded search over client credentials, accept decisions/errnos, auth_set choices and concurrent connects; credentials oracle, '
+               'refusal oracle (errno, no leftovers, no msg_process), and file mode/ownership invariants evaluated between every two server system calls',
+    level_note='ownership is a ledger kept by the shim (the simulated uids need not exist); directories are allowed mode 0770 as created by the library; '
+               'modes chosen by the accept callback always include 0600',
+    technique='deterministic simulation with simulated kernel credentials and an observer at every server libc call, ddmin replay',
+    design_ref='DESIGN.md 4/C05',
+    assumptions=['SO_PASSCRED/SCM_CREDENTIALS path (Linux)'])
+PROPS['C06'] = _ipc('a hostile sim-process writing arbitrary handshake bytes and raw request chunks/datagrams', 'at least one connection was announced and the baton changed hands more than four times',
+    level_text='seeded Byzantine-peer injection: every prefix / mutated field / garbage on the handshake socket, dribbled byte-wise with stalls; after a '
+               'legitimate handshake raw request chunks/datagrams whose length field lies; a well-behaved control client must still be served; '
+               'msg_process bounds, ASan, descriptor and /dev/shm baselines',
+    level_note='a /dev/shm quota (posix_fallocate ENOSPC above 64 MiB) bounds what a hostile max_msg_size can make the server allocate',
+    technique='deterministic simulation with a hostile peer on the simulated transport (message-level fault injection), ASan, ddmin replay',
+    design_ref='DESIGN.md 4/C06',
+    assumptions=['the hostile peer can only use the channels the handshake gave it'])
 
 NOT_APPLICABLE = {
     'C12': 'log routing is a pure function of one caller\'s configuration and call-site sequence: no schedule, clock, I/O outcome, peer or crash point for a simulator to control (DESIGN.md section 5)',
